@@ -234,7 +234,7 @@ pub fn grid_cases(tier: Tier) -> Vec<PuCase> {
     }
     // stableswap
     let amps: Vec<u64> = tier.pick(vec![1, 100, 1_000_000], vec![1, 10, 100, 5000, 1_000_000]);
-    let decsets: Vec<Vec<u8>> = tier.pick(vec![vec![6, 6], vec![6, 18], vec![6, 12, 18], vec![6, 6, 6, 6]], vec![vec![6, 6], vec![6, 18], vec![18, 6], vec![8, 6], vec![6, 12, 18], vec![6, 6, 6, 6], vec![6, 12, 18, 8]]);
+    let decsets: Vec<Vec<u8>> = tier.pick(vec![vec![6, 6], vec![6, 18], vec![8, 6], vec![6, 12, 18], vec![6, 6, 6, 6]], vec![vec![6, 6], vec![6, 18], vec![18, 6], vec![8, 6], vec![6, 12], vec![6, 12, 18], vec![6, 6, 6, 6], vec![6, 12, 18, 8]]);
     let mags: Vec<(u128, i32)> = tier.pick(vec![(2, -3), (3, 0), (1, 6), (1, 12)], vec![(2, -3), (5, -1), (3, 0), (100, 0), (1, 6), (1, 9), (1, 12)]);
     let skews = [1u128, 3, 1000];
     for f in &feesets {
